@@ -303,6 +303,21 @@ def _run(ctx, side):
             exceptions.append('%s: %s in %s' % (getattr(etype, '__name__', etype), evalue, getattr(handler, '__name__', handler)))
             ctx.log('exception', getattr(etype, '__name__', '?'))
 
+    tap = dict(on=False, data=bytearray())
+
+    class WriteTap(Component):
+        """What the codec hands to its transport (`write` events on the transport's channel), whether or not the transport still sends it:
+        a data frame handed over after the close frame is a data message "sent after a close frame" even if the connection happens to be
+        closed a moment later and the bytes never reach the wire."""
+        channel = '*'
+
+        @handler('write', channel='*', priority=1e9)
+        def _on_any_write(self, event, *args, **kwargs):
+            if not tap['on'] or event.channels and event.channels[0] in ('wsserver', 'ws'):
+                return          # not started yet / the application's own write on the codec's channel
+            if args and isinstance(args[-1], (bytes, bytearray)):
+                tap['data'] += args[-1]
+
     # ---- fault policy: short reads at chosen offsets of the frame stream, short writes from the tape
     class Policy(TapePolicy):
         cuts = []
@@ -476,6 +491,8 @@ def _run(ctx, side):
         response = (b'HTTP/1.1 101 Switching Protocols\r\nUpgrade: websocket\r\nConnection: Upgrade\r\nSec-WebSocket-Accept: ' + accept + b'\r\n\r\n')
         wire_mark = len(head) + 4
     dec = R.Decoder(expect_masked=not server, mask_exempt=() if server else (R.CLOSE,))
+    WriteTap().register(m)
+    tap['on'] = True            # the handshake is over: every write to the transport from now on is frames
     ctx.log('cfg', side, poller.__name__, bufsize)
     ctx.trace('%s endpoint, %s, bufsize %d%s' % (side, poller.__name__, bufsize, ', SO_SNDBUF 4608' if NET.sndbuf else ''))
 
@@ -741,6 +758,14 @@ def _run(ctx, side):
                 raise HarnessLimit('%d of %d stream bytes read by the endpoint at quiescence' % (st['rx'] - st['base'], total[0]))
             fail(blame('C17/decode/message-never-delivered'), 'at quiescence %d of %d messages were delivered; first missing: #%d %s %d bytes' % (
                 len(got), len(must), len(got), e[0], len(e[1])))
+    if not st['viol'] and (st['peer_closed'] or st['app_closed']):
+        # [close] the same clause at the codec's own output: the frames it handed to its transport, sent on or not
+        dec2 = R.Decoder(expect_masked=not server, mask_exempt=() if server else (R.CLOSE,))
+        dec2.feed(bytes(tap['data']))
+        if dec2.error is None and dec2.tail is not None and any(e[0] in ('text', 'binary') for e in dec2.tail.events):
+            e = [e for e in dec2.tail.events if e[0] in ('text', 'binary')][0]
+            fail(blame('C17/close/data-message-handed-to-transport-after-close-frame'), 'the %s endpoint handed a %s message of %d bytes to its transport AFTER its '
+                 'close frame (%s close first)' % (side, e[0], len(e[1]), 'the peer sent its' if st['peer_closed'] and not st['app_closed'] else 'the application started the'))
     if not st['viol']:
         # [ping] every ping sent before a close frame must have been answered by a pong with the same payload (any order is accepted,
         # extra pongs too); the violation is named after the first ping whose pong, taken in order, differs
